@@ -131,6 +131,33 @@ def script_of(fn, which, lists):
     return out
 
 
+TREE_HEAD = ["metadata = {'header': {'version': '1.0'}, 'data': []}", "for item in self.extra_files[variant][arch]:",
+             "json.dump(metadata, output, sort_keys=True, indent=4, separators=(',', ': '))"]
+TREE_BODY = {
+    "copy": ["metadata['data'].append({'file': _relative_to(item['file'], basepath), 'size': item['size'], 'checksums': item['checksums']})"],
+    "inPlace": ["item['file'] = _relative_to(item['file'], basepath)", "metadata['data'].append(item)"],
+}
+
+
+def tree_mode(fn):
+    """shape of `ExtraFiles.dump_for_tree`: the statements around the loop must be the pinned ones, the loop body decides"""
+    if fn is None:
+        return "unknown"
+    body = list(fn.body)
+    if body and isinstance(body[0], ast.Expr) and isinstance(body[0].value, ast.Constant) and isinstance(body[0].value.value, str):
+        body = body[1:]
+    if len(body) != 3 or not isinstance(body[1], ast.For) or body[1].orelse:
+        return "unknown"
+    head = [ast.unparse(body[0]), ast.unparse(body[1]).splitlines()[0], ast.unparse(body[2])]
+    if head != TREE_HEAD:
+        return "unknown"
+    loop = [ast.unparse(st) for st in body[1].body]
+    for mode, text in TREE_BODY.items():
+        if loop == text:
+            return mode
+    return "unknown"
+
+
 def generate(mods, repo):
     lists = {}
     scripts = {
@@ -154,7 +181,10 @@ def generate(mods, repo):
         out += ["    %-18s -- %s" % (k, s.replace("-/", "- /")) for k, s in sc]
         out.append("-/")
         out.append("def %s : List BStep :=\n  [%s]\n" % (name, ", ".join("." + k for k, _ in sc)))
+    mode = tree_mode(method_ast(mods["extra_files"].ExtraFiles, "dump_for_tree"))
+    out.append("/-- the loop body of `ExtraFiles.dump_for_tree` (a fresh dict per entry, or the stored record rewritten in place) -/")
+    out.append("def dump_for_tree_mode : TreeMode := .%s\n" % mode)
     out.append("end PM.Gen")
-    js = {"rpms_add_source_arches": compose_arches, "rpms_add_nevra_source_arches": nevra_arches,
+    js = {"dump_for_tree_mode": mode, "rpms_add_source_arches": compose_arches, "rpms_add_nevra_source_arches": nevra_arches,
           "scripts": dict((k, [x[0] for x in v]) for k, v in scripts.items())}
     return [("BuilderFacts.lean", "\n".join(out) + "\n", js)]
